@@ -475,6 +475,16 @@ def install(c):
 
     S["cubed.core.ops:rechunk"] = rechunk_summary
 
+    def create_zarr_indexer(it, fn, a, k):
+        from .zarridx import SymIndexer
+
+        return SymIndexer(it, *a, **k)
+
+    S["cubed.core.ops:_create_zarr_indexer"] = create_zarr_indexer
+    from .zarridx import ScatterLoop
+
+    it.loop_specs.setdefault(("cubed.core.ops:_assemble_index_chunk", 1), ScatterLoop("_assemble_index_chunk.scatter"))
+
     def plan_new(it, fn, a, k):
         # Plan._new(name, op_name, target, primitive_op, hidden, scalar_value, *source_arrays)
         srcs = [x for x in a[7:] if isinstance(x, IObj)] if len(a) > 7 else []
